@@ -19,6 +19,10 @@ VALUE_CLASSES = {
 COND_KINDS = ["header", "header", "nothdr", "exists", "notexists", "size", "envelope", "body", "currentdate", "currentdate-value"]
 
 
+REFUSED_DEFS = [("envelope", ":notfoo", ["to"], ["x"]), ("body", ":text", ":notfoo", "x"), ("notsize", ":big", "10K"), ("Subject", ":notfoo", "x"),
+                ("notexists",), ("size", ":over"), ("envelope", ":notis"), ("currentdate", ":zone", "+0100", ":notbar", "date", "x"), ("notbody", ":raw", ":nope", "x")]
+
+
 def gen_action(t, r):
     k = r.choice(["fileinto", "fileinto-copy", "fileinto-create", "redirect", "redirect-copy", "reject", "keep", "discard", "stop", "setflag", "addflag", "vacation",
                   "removeflag", "setflag-var", "addflag-var", "removeflag-var"])
@@ -90,6 +94,15 @@ def one_case(r, cls, kinds):
     want = (normalise(conds), normalise(acts), mt)
     probs = []
     fs = FiltersSet("t")
+    # the set may have REFUSED other definitions before (a mistyped match type, a negated one at that, a size without its
+    # number): a refused call leaves nothing behind, what is put in next is what is read back
+    if r.random() < 0.35:
+        for bad in r.sample(REFUSED_DEFS, 2):
+            try:
+                fs.addfilter("refused", [bad], [("keep",)], "anyof")
+                fs.removefilter("refused")
+            except Exception:  # noqa
+                pass
     try:
         fs.addfilter("f", conds, acts, mt)
         got = readback(fs, "f")
